@@ -16,7 +16,10 @@ Definition hooksum := list (oid * fname * nat * list (nat * oid * nat)).
 Definition case := (nat * list (op * obs * option hooksum))%type.
 
 Definition exn_eqb (a b : exn) : bool :=
-  match a, b with NotifierNotFound, NotifierNotFound | OtherError, OtherError => true | _, _ => false end.
+  match a, b with
+  | NotifierNotFound, NotifierNotFound | ValueError, ValueError | OtherError, OtherError => true
+  | _, _ => false
+  end.
 Definition outcome_eqb (a b : outcome) : bool :=
   match a, b with Ok, Ok => true | Raise x, Raise y => exn_eqb x y | _, _ => false end.
 
